@@ -7,7 +7,6 @@ import (
 	"go/ast"
 	"go/token"
 	"go/types"
-	"os"
 	"path/filepath"
 	"regexp"
 	"sort"
@@ -138,124 +137,161 @@ var ruleA5 = &Rule{
 				}
 				obls = append(obls, Obl{Key: name + " " + k, Pos: c.pos(pos), Status: st, Msg: msg})
 			}
-			loop, _ := enclosingLoop(fi.Decl.Body, verWrite.call).(*ast.ForStmt)
-			if loop == nil {
-				add("version write inside the statement loop", false, verWrite.call.Pos(), "the version INSERT is not inside a `for i := …` loop over the statements: a version could be recorded without its statement having run in this iteration")
+			loopStmt := enclosingLoop(fi.Decl.Body, verWrite.call)
+			if loopStmt == nil {
+				add("version write inside the statement loop", false, verWrite.call.Pos(), "the version INSERT is not inside the loop over the statements: a version could be recorded without its statement having run in this iteration")
 				continue
 			}
-			// loop variable
-			var iObj types.Object
-			var initRHS ast.Expr
-			if as, ok := loop.Init.(*ast.AssignStmt); ok && len(as.Lhs) == 1 && len(as.Rhs) == 1 {
-				if id, ok := as.Lhs[0].(*ast.Ident); ok {
-					iObj = info.Defs[id]
-					initRHS = as.Rhs[0]
-				}
-			}
-			if iObj == nil {
-				add("loop shape", false, loop.Pos(), "loop variable not recognised")
-				continue
-			}
-			usesI := func(e ast.Expr) bool {
-				hit := false
-				ast.Inspect(e, func(n ast.Node) bool {
-					if id, ok := n.(*ast.Ident); ok && info.Uses[id] == iObj {
-						hit = true
-					}
-					return true
-				})
-				return hit
-			}
-			// the script execution of this iteration: a call whose single argument is X[i]
+			lin := &linEval{info: info, body: fi.Decl.Body}
+			// Two loop shapes are understood. Index loop: `for i := START; i < len(S); i++ { exec(S[i]) }` — executed index i.
+			// Range loop: `for n, x := range S[START:] { exec(x) }` — executed index START + n.
 			var execCall *ast.CallExpr
-			var scriptsObj types.Object
-			ast.Inspect(loop.Body, func(n ast.Node) bool {
-				call, ok := n.(*ast.CallExpr)
-				if !ok || len(call.Args) != 1 {
-					return true
+			var idx linForm      // absolute index of the statement executed in this iteration
+			var startExpr ast.Expr // START
+			var loopBody *ast.BlockStmt
+			coverOK, coverMsg := false, ""
+			var counter types.Object
+			switch loop := loopStmt.(type) {
+			case *ast.ForStmt:
+				loopBody = loop.Body
+				if as, ok := loop.Init.(*ast.AssignStmt); ok && len(as.Lhs) == 1 && len(as.Rhs) == 1 {
+					if id, ok := as.Lhs[0].(*ast.Ident); ok {
+						counter = info.Defs[id]
+						startExpr = as.Rhs[0]
+					}
 				}
-				ix, ok := ast.Unparen(call.Args[0]).(*ast.IndexExpr)
-				if !ok {
-					return true
+				if counter == nil {
+					add("loop shape", false, loop.Pos(), "loop variable not recognised")
+					continue
 				}
-				if id, ok := ast.Unparen(ix.Index).(*ast.Ident); ok && info.Uses[id] == iObj {
+				var scriptsObj types.Object
+				ast.Inspect(loop.Body, func(n ast.Node) bool {
+					call, ok := n.(*ast.CallExpr)
+					if !ok || len(call.Args) != 1 || execCall != nil {
+						return true
+					}
+					ix, ok := ast.Unparen(call.Args[0]).(*ast.IndexExpr)
+					if !ok {
+						return true
+					}
 					if sig, ok := info.Types[call.Fun].Type.(*types.Signature); ok && sig.Results().Len() == 1 {
-						if execCall == nil {
+						if f, ok := lin.eval(ix.Index, 0); ok {
 							execCall = call
+							idx = f
 							if sid, ok := ast.Unparen(ix.X).(*ast.Ident); ok {
 								scriptsObj = info.Uses[sid]
 							}
 						}
 					}
+					return true
+				})
+				okCond := false
+				if be, ok := loop.Cond.(*ast.BinaryExpr); ok && be.Op == token.LSS && usesObj(info, be.X, counter) {
+					ast.Inspect(be.Y, func(n ast.Node) bool {
+						if call, ok := n.(*ast.CallExpr); ok {
+							if id, ok := call.Fun.(*ast.Ident); ok && id.Name == "len" && len(call.Args) == 1 {
+								if sid, ok := ast.Unparen(call.Args[0]).(*ast.Ident); ok && scriptsObj != nil && info.Uses[sid] == scriptsObj {
+									okCond = true
+								}
+							}
+						}
+						return true
+					})
 				}
-				return true
-			})
+				okPost := false
+				if inc, ok := loop.Post.(*ast.IncDecStmt); ok && inc.Tok == token.INC && usesObj(info, inc.X, counter) {
+					okPost = true
+				}
+				coverOK = okCond && okPost && !writesObj(info, loop.Body, counter)
+				coverMsg = "loop must be `i < len(scripts); i++` with no other write to i (no statement skipped, none run twice in one pass)"
+			case *ast.RangeStmt:
+				loopBody = loop.Body
+				kid, _ := loop.Key.(*ast.Ident)
+				vid, _ := loop.Value.(*ast.Ident)
+				if kid != nil {
+					counter = info.Defs[kid]
+				}
+				var valObj types.Object
+				if vid != nil {
+					valObj = info.Defs[vid]
+				}
+				// ranged expression: S or S[START:]
+				rx := ast.Unparen(loop.X)
+				base := linForm{terms: map[types.Object]int64{}}
+				open := true
+				if se, ok := rx.(*ast.SliceExpr); ok {
+					if se.High != nil || se.Max != nil {
+						open = false
+					}
+					if se.Low != nil {
+						startExpr = se.Low
+						if f, ok := lin.eval(se.Low, 0); ok {
+							base = f
+						} else {
+							open = false
+						}
+					}
+				}
+				ast.Inspect(loop.Body, func(n ast.Node) bool {
+					call, ok := n.(*ast.CallExpr)
+					if !ok || len(call.Args) != 1 || execCall != nil {
+						return true
+					}
+					if id, ok := ast.Unparen(call.Args[0]).(*ast.Ident); ok && valObj != nil && info.Uses[id] == valObj {
+						if sig, ok := info.Types[call.Fun].Type.(*types.Signature); ok && sig.Results().Len() == 1 {
+							execCall = call
+						}
+					}
+					return true
+				})
+				if counter != nil {
+					idx = base.add(linForm{terms: map[types.Object]int64{counter: 1}}, 1)
+				}
+				coverOK = open && (counter == nil || !writesObj(info, loop.Body, counter))
+				coverMsg = "the range must run to the end of the script list (`range scripts[start:]`) with no write to its index"
+			}
 			if execCall == nil {
-				add("script executed before its version", false, loop.Pos(), "no `exec(scripts[i])` call found in the loop that writes the version")
+				add("script executed before its version", false, loopStmt.Pos(), "no call executing this iteration's script (`exec(scripts[i])` / `exec(script)`) found in the loop that writes the version")
 				continue
 			}
+			_ = loopBody
 			succ := g.SuccessBlock(execCall)
 			wb, _ := g.BlockOf(verWrite.call)
 			add("script executed before its version", succ != nil && wb != nil && g.Dominates(succ, wb), verWrite.call.Pos(),
-				"the version INSERT must be reachable only through the `err == nil` edge of exec(scripts[i]); otherwise a version is recorded for a statement that failed or did not run")
-			// arguments: k (parameter) and i+1
-			okArgs := false
+				"the version INSERT must be reachable only through the `err == nil` edge of the script execution; otherwise a version is recorded for a statement that failed or did not run")
+			// arguments: k (parameter) and (absolute index of the executed statement) + 1
+			okArgs, argMsg := false, "the version INSERT must record the runner's stream id parameter and the index of the statement just executed plus one"
 			kName := ""
 			if len(verWrite.call.Args) == 4 {
 				if id, ok := ast.Unparen(verWrite.call.Args[2]).(*ast.Ident); ok {
 					if v, ok := info.Uses[id].(*types.Var); ok && isParam(fi, info, v) {
 						kName = id.Name
-						if be, ok := ast.Unparen(verWrite.call.Args[3]).(*ast.BinaryExpr); ok && be.Op == token.ADD && usesI(be.X) {
-							if tv, ok := info.Types[be.Y]; ok && tv.Value != nil && tv.Value.ExactString() == "1" {
+						if f, ok := lin.eval(verWrite.call.Args[3], 0); ok && idx.terms != nil {
+							want := idx.add(linForm{terms: map[types.Object]int64{}, k: 1}, 1)
+							if f.equal(want) {
 								okArgs = true
+							} else {
+								argMsg = fmt.Sprintf("the version recorded is %s but the statement just executed has absolute index %s: the row must be that index plus one — after a resumed run the recorded version would not be the number of statements applied", f.String(), idx.String())
 							}
 						}
 					}
 				}
 			}
-			add("version row is (stream id, i+1)", okArgs, verWrite.call.Pos(), "the version INSERT must record the runner's stream id parameter and the index of the statement just executed plus one")
-			// loop shape
-			okCond := false
-			if be, ok := loop.Cond.(*ast.BinaryExpr); ok && be.Op == token.LSS && usesI(be.X) {
-				ast.Inspect(be.Y, func(n ast.Node) bool {
-					if call, ok := n.(*ast.CallExpr); ok {
-						if id, ok := call.Fun.(*ast.Ident); ok && id.Name == "len" && len(call.Args) == 1 {
-							if sid, ok := ast.Unparen(call.Args[0]).(*ast.Ident); ok && info.Uses[sid] == scriptsObj {
-								okCond = true
-							}
+			add("version row is (stream id, i+1)", okArgs, verWrite.call.Pos(), argMsg)
+			add("loop covers every statement from the recorded version", coverOK, loopStmt.Pos(), coverMsg)
+			// start from the scanned version of the same stream
+			okInit := false
+			if verQuery != nil && startExpr != nil {
+				var verObj types.Object
+				ast.Inspect(startExpr, func(n ast.Node) bool {
+					if id, ok := n.(*ast.Ident); ok && verObj == nil {
+						if v, ok := info.Uses[id].(*types.Var); ok && !v.IsField() {
+							verObj = v
 						}
 					}
 					return true
 				})
-			}
-			okPost := false
-			if inc, ok := loop.Post.(*ast.IncDecStmt); ok && inc.Tok == token.INC && usesI(inc.X) {
-				okPost = true
-			}
-			otherWrite := false
-			ast.Inspect(loop.Body, func(n ast.Node) bool {
-				switch s := n.(type) {
-				case *ast.AssignStmt:
-					for _, lh := range s.Lhs {
-						if id, ok := lh.(*ast.Ident); ok && info.Uses[id] == iObj {
-							otherWrite = true
-						}
-					}
-				case *ast.IncDecStmt:
-					if usesI(s.X) {
-						otherWrite = true
-					}
-				}
-				return true
-			})
-			add("loop covers every statement from the recorded version", okCond && okPost && !otherWrite, loop.Pos(),
-				"loop must be `i < len(scripts); i++` with no other write to i (no statement skipped, none run twice in one pass)")
-			// init from the scanned version of the same stream
-			okInit := false
-			if verQuery != nil {
-				if id, ok := ast.Unparen(initRHS).(*ast.Ident); ok {
-					verObj := info.Uses[id]
-					// Scan(&ver) on rows of verQuery, and the query's last arg is k
+				if f, ok := lin.eval(startExpr, 0); ok && verObj != nil && len(f.terms) == 1 && f.terms[verObj] == 1 && f.k == 0 {
 					scanned := false
 					for _, d := range calls {
 						if d.method == "Scan" && len(d.call.Args) == 1 {
@@ -275,8 +311,8 @@ var ruleA5 = &Rule{
 					okInit = scanned && sameK
 				}
 			}
-			add("loop starts at the version recorded for this stream", okInit, loop.Pos(),
-				"`i` must start from the value scanned from `SELECT max(ver) … WHERE k = <this stream>`; otherwise completed statements are re-run or pending ones skipped")
+			add("loop starts at the version recorded for this stream", okInit, loopStmt.Pos(),
+				"the loop must start from the value scanned from `SELECT max(ver) … WHERE k = <this stream>`; otherwise completed statements are re-run or pending ones skipped")
 			// error discipline of the three DB calls
 			checked := func(call *ast.CallExpr) bool {
 				return g.SuccessBlock(call) != nil || returnedDirectly(fi.Decl.Body, call)
@@ -456,7 +492,7 @@ func (c *Ctx) embeddedScripts() (map[string][]string, []string, error) {
 			for _, cm := range gd.Doc.List {
 				if strings.HasPrefix(cm.Text, "//go:embed ") {
 					file := strings.TrimSpace(strings.TrimPrefix(cm.Text, "//go:embed "))
-					b, err := os.ReadFile(filepath.Join(dir, file))
+					b, err := c.readFile(filepath.Join(dir, file))
 					if err != nil {
 						return nil, nil, err
 					}
@@ -1192,3 +1228,180 @@ var ruleC7 = &Rule{
 }
 
 func init() { register(ruleC7) }
+
+
+// ---- small linear arithmetic over local integer variables (A5) ----
+
+type linForm struct {
+	terms map[types.Object]int64
+	k     int64
+}
+
+func (a linForm) add(b linForm, sign int64) linForm {
+	out := linForm{terms: map[types.Object]int64{}, k: a.k + sign*b.k}
+	for o, c := range a.terms {
+		out.terms[o] += c
+	}
+	for o, c := range b.terms {
+		out.terms[o] += sign * c
+	}
+	for o, c := range out.terms {
+		if c == 0 {
+			delete(out.terms, o)
+		}
+	}
+	return out
+}
+
+func (a linForm) equal(b linForm) bool {
+	d := a.add(b, -1)
+	return len(d.terms) == 0 && d.k == 0
+}
+
+func (a linForm) String() string {
+	var parts []string
+	for o, c := range a.terms {
+		if c == 1 {
+			parts = append(parts, o.Name())
+		} else {
+			parts = append(parts, fmt.Sprintf("%d*%s", c, o.Name()))
+		}
+	}
+	sort.Strings(parts)
+	if a.k != 0 || len(parts) == 0 {
+		parts = append(parts, fmt.Sprintf("%d", a.k))
+	}
+	return strings.Join(parts, " + ")
+}
+
+type linEval struct {
+	info *types.Info
+	body *ast.BlockStmt
+}
+
+// singleDef: the only definition of a local (`x := e`, never assigned again), so that x can be replaced by e.
+func (l *linEval) singleDef(obj types.Object) ast.Expr {
+	var def ast.Expr
+	n := 0
+	ast.Inspect(l.body, func(m ast.Node) bool {
+		switch s := m.(type) {
+		case *ast.AssignStmt:
+			for i, lh := range s.Lhs {
+				id, ok := lh.(*ast.Ident)
+				if !ok {
+					continue
+				}
+				if l.info.Defs[id] == obj || l.info.Uses[id] == obj {
+					n++
+					if s.Tok == token.DEFINE && len(s.Lhs) == len(s.Rhs) {
+						def = s.Rhs[i]
+					} else {
+						n += 10
+					}
+				}
+			}
+		case *ast.IncDecStmt:
+			if id, ok := s.X.(*ast.Ident); ok && l.info.Uses[id] == obj {
+				n += 10
+			}
+		case *ast.RangeStmt:
+			for _, e := range []ast.Expr{s.Key, s.Value} {
+				if id, ok := e.(*ast.Ident); ok && l.info.Defs[id] == obj {
+					n += 10
+				}
+			}
+		}
+		return true
+	})
+	if n == 1 {
+		return def
+	}
+	return nil
+}
+
+func (l *linEval) eval(e ast.Expr, depth int) (linForm, bool) {
+	zero := linForm{terms: map[types.Object]int64{}}
+	if depth > 8 {
+		return zero, false
+	}
+	e = ast.Unparen(e)
+	if tv, ok := l.info.Types[e]; ok && tv.Value != nil {
+		if v, ok := constantInt64(tv); ok {
+			return linForm{terms: map[types.Object]int64{}, k: v}, true
+		}
+	}
+	switch x := e.(type) {
+	case *ast.Ident:
+		obj := l.info.Uses[x]
+		if obj == nil {
+			return zero, false
+		}
+		if def := l.singleDef(obj); def != nil {
+			if _, isLoopVar := def.(*ast.CallExpr); !isLoopVar || true {
+				if f, ok := l.eval(def, depth+1); ok {
+					return f, true
+				}
+			}
+		}
+		return linForm{terms: map[types.Object]int64{obj: 1}}, true
+	case *ast.CallExpr:
+		// conversion uint64(x) / int(x)
+		if len(x.Args) == 1 {
+			if tv, ok := l.info.Types[x.Fun]; ok && tv.IsType() {
+				return l.eval(x.Args[0], depth+1)
+			}
+		}
+	case *ast.BinaryExpr:
+		a, ok1 := l.eval(x.X, depth+1)
+		b, ok2 := l.eval(x.Y, depth+1)
+		if ok1 && ok2 {
+			switch x.Op {
+			case token.ADD:
+				return a.add(b, 1), true
+			case token.SUB:
+				return a.add(b, -1), true
+			}
+		}
+	}
+	return zero, false
+}
+
+func constantInt64(tv types.TypeAndValue) (int64, bool) {
+	s := tv.Value.ExactString()
+	var v int64
+	if _, err := fmt.Sscanf(s, "%d", &v); err == nil && fmt.Sprintf("%d", v) == s {
+		return v, true
+	}
+	return 0, false
+}
+
+func usesObj(info *types.Info, e ast.Node, obj types.Object) bool {
+	hit := false
+	ast.Inspect(e, func(n ast.Node) bool {
+		if id, ok := n.(*ast.Ident); ok && info.Uses[id] == obj {
+			hit = true
+		}
+		return true
+	})
+	return hit
+}
+
+func writesObj(info *types.Info, body ast.Node, obj types.Object) bool {
+	w := false
+	ast.Inspect(body, func(n ast.Node) bool {
+		switch s := n.(type) {
+		case *ast.AssignStmt:
+			for _, lh := range s.Lhs {
+				if id, ok := lh.(*ast.Ident); ok && info.Uses[id] == obj {
+					w = true
+				}
+			}
+		case *ast.IncDecStmt:
+			if usesObj(info, s.X, obj) {
+				w = true
+			}
+		}
+		return true
+	})
+	return w
+}
